@@ -25,6 +25,18 @@ def consumer(chk, prefix):
 
 
 class StateHooks(Hooks):
+    def cm_enter(self, eng, st, cm):
+        if isinstance(cm, Ref) and cm.cls == "opaque:Lock":
+            st.emit("lock_enter", lock=cm)
+            return [("val", cm, st)]
+        return Hooks.cm_enter(self, eng, st, cm)
+
+    def cm_exit(self, eng, st, cm, exc):
+        if isinstance(cm, Ref) and cm.cls == "opaque:Lock":
+            st.emit("lock_exit", lock=cm)
+            return [("val", None, st)]
+        return Hooks.cm_exit(self, eng, st, cm, exc)
+
     def opaque_attr(self, eng, st, ref, name):
         v = opelem_attr(st, ref, name)
         if v is not None:
@@ -54,7 +66,11 @@ class StateHooks(Hooks):
             return [("val", None, st)]
         if n == "FailedEvent.is_set":
             b = fresh("bool", "failed_is_set")
+            prev = st.ghost.get("failed_seen")
+            if prev is not None:
+                st.assume(z3.Implies(prev, b.t))  # the flag is never cleared
             st.ghost["failed_seen"] = b.t
+            st.emit("failed_check", b=b.t)
             return [("val", b, st)]
         if n == "FailedEvent.wait":
             # contract of CompletionEvent.wait on an event that is set with an error (the consumer only ever sets it with one): raises it
@@ -355,8 +371,17 @@ def create_checkpoint(chk, prefix, want):
             elif any(e.kind == "wait_raised" for e in s.trace):
                 chk.prove(f"{prefix}.state.sync_blocks.error_propagates", s.pc, isinstance(v, Ref) and v == [e for e in s.trace if e.kind == "wait_raised"][0].exc and len(puts) == 1,
                           desc="a failure stored in the completion event leaves create_checkpoint as the raised exception (the caller never proceeds)")
+            if k == "val" or waits:
+                ip = s.trace.index(puts[0]) if puts else -1
+                iw = s.trace.index(waits[0]) if waits else len(s.trace)
+                rechecks = [e for i, e in enumerate(s.trace) if e.kind == "failed_check" and ip < i < iw]
+                chk.prove(f"{prefix}.produce.no_lost_wakeup.recheck_after_put", list(s.pc) + [is_sync.t], z3.And(z3.BoolVal(len(rechecks) >= 1), z3.Not(rechecks[-1].b) if rechecks else F) if waits else z3.BoolVal(True),
+                          desc="a synchronous caller tests the failed flag again AFTER its put and waits on its completion event only if the flag is still unset then")
             if failed:
-                chk.prove(f"{prefix}.produce.fail_fast", s.pc, z3.BoolVal(k == "raise" and v == failed[0].exc and not puts), desc="once the failed flag is observed set, create_checkpoint raises the stored BackgroundThreadError and enqueues nothing")
+                checks = [e for e in s.trace if e.kind == "failed_check"]
+                first_set = checks[0].b if checks else F
+                chk.prove(f"{prefix}.produce.fail_fast", s.pc, z3.And(z3.BoolVal(k == "raise" and v == failed[0].exc and not waits), z3.Implies(first_set, z3.BoolVal(not puts))),
+                          desc="once the failed flag is observed set, create_checkpoint raises the stored BackgroundThreadError without waiting; if it was already set on entry nothing is enqueued")
             seen = s.ghost.get("failed_seen")
             if seen is not None and k == "val":
                 chk.prove(f"{prefix}.produce.fail_fast.checked", s.pc, z3.Not(seen), desc="a call that returns normally observed the failed flag unset before enqueueing")
@@ -377,6 +402,19 @@ def create_checkpoint(chk, prefix, want):
                 chk.prove(f"{prefix}.state.rejects_descendants", list(s.pc) + [under_done], z3.BoolVal(orphan and not puts),
                           desc="an update for an operation that is marked, or whose parent is marked or completed (first-time operation under an orphan / completed context), raises OrphanedChildException and is not enqueued",
                           sample="create_checkpoint with u.operation_id or u.parent_id under a completed context")
+            if puts:
+                def replay_race(inputs):
+                    from pyvc.check import native
+                    r_ = native("orphan_race_replay.py", {})
+                    return bool(r_.get("confirmed")), r_
+                kinds = [e.kind for e in s.trace]
+                ip = s.trace.index(puts[0])
+                enters = [i for i, e in enumerate(s.trace) if e.kind == "lock_enter" and i < ip]
+                exits_before = [i for i, e in enumerate(s.trace) if e.kind == "lock_exit" and i < ip]
+                held = bool(enters) and len(exits_before) < len(enters)
+                chk.prove(f"{prefix}.state.check_then_put_atomic", list(s.pc) + [not_none], z3.BoolVal(held),
+                          desc="OG stability: the orphan test and the queue put of an update happen in ONE atomic action (the put is made while _parent_done_lock is held), so a context cannot complete - and enqueue its completion record - between a descendant's test and its put",
+                          replay=replay_race, describe=lambda m: {"schedule": "child passes the orphan test; parent SUCCEED is handed over; child's put happens"}, sample="create_checkpoint: lock_enter < put < lock_exit")
             # I1: the parent link of every update is registered, nothing is forgotten
             pp, cc = z3.String(fresh_name("p")), z3.String(fresh_name("c"))
             I1 = z3.And(z3.Implies(z3.And(not_none, par_truthy), R2(par_t, uid)), z3.ForAll([pp, cc], z3.Implies(R0(pp, cc), R2(pp, cc))))
